@@ -1,4 +1,4 @@
-import BridgeVerif.Translated.AuctionLemmasC
+import BridgeVerif.Translated.AuctionLemmasB
 import BridgeVerif.Model.Play
 /-! Translated playing phases = model: encoders of the model states, `Val.beq` on encoded values, the containers
 (trick cards, used cards, hands, taken tricks) -/
